@@ -10,7 +10,9 @@
    spawn_local tasks of a current-thread runtime).  A schedule is a list of events [ev]; which task runs next, what the
    modulator answers and when, which connection goes away when, which request is dropped by its time-out are all
    chosen by the schedule.  The theorems (Proofs/ConcProofs.v) quantify over every schedule.
-   Identifiers are numbers here (the strings are the business of Model/Server.v); ACLs and pagination are left out.
+   Identifiers are numbers here (the strings are the business of Model/Server.v); allow-lists hold plain user ids
+   (an empty list admits everybody; domains and bare-domain entries are the sequential model's business); pagination is
+   left out.
    Two flags describe the source (read off it on every run, Gen/ConcFlags.v):
      ptr_check : after its wait for the channel lock a JOIN checks that the map still holds THAT channel object
                  (fix 8cc81f1; false = only that it holds some channel of that name)
@@ -43,13 +45,35 @@ Record ccfg := {
   c_max_clients : N }.
 
 (* a channel object (ChannelInner behind its Arc<RwLock>); objects are never destroyed, only taken out of the map *)
-Record cobj := { members : list user; owner : option user }.
+Record cobj := {
+  members : list user; owner : option user;
+  jacl : list user; pacl : list user; racl : list user;     (* join / publish / read allow-lists; [] = everybody *)
+  targets : list user }.                                     (* cached delivery list: the members the read list admits *)
+Definition empty_obj : cobj := {| members := []; owner := None; jacl := []; pacl := []; racl := []; targets := [] |}.
+Definition allowed (a : list user) (u : user) : bool := isnil a || mem u a.
 Definition is_owner (o : cobj) (u : user) : bool := match owner o with Some x => x =? u | None => false end.
+(* ChannelInner::update_allowed_targets *)
+Definition retarget (o : cobj) : cobj :=
+  {| members := members o; owner := owner o; jacl := jacl o; pacl := pacl o; racl := racl o;
+     targets := filter (allowed (racl o)) (members o) |}.
 Definition obj_insert (o : cobj) (n : user) : cobj :=
-  {| members := add n (members o); owner := match owner o with None => Some n | x => x end |}.
+  retarget {| members := add n (members o); owner := match owner o with None => Some n | x => x end;
+              jacl := jacl o; pacl := pacl o; racl := racl o; targets := targets o |}.
 Definition obj_remove (o : cobj) (n : user) : cobj :=
-  {| members := del n (members o); owner := if is_owner o n then None else owner o |}.
-Definition obj_set_owner (o : cobj) (n : user) : cobj := {| members := members o; owner := Some n |}.
+  retarget {| members := del n (members o); owner := if is_owner o n then None else owner o;
+              jacl := jacl o; pacl := pacl o; racl := racl o; targets := targets o |}.
+Definition obj_set_owner (o : cobj) (n : user) : cobj :=
+  {| members := members o; owner := Some n; jacl := jacl o; pacl := pacl o; racl := racl o; targets := targets o |}.
+(* allow-list types: 1 join, 2 publish, anything else read *)
+Definition acl_of (o : cobj) (ty : N) : list user := if ty =? 1 then jacl o else if ty =? 2 then pacl o else racl o.
+Definition obj_set_acl (o : cobj) (ty : N) (a : list user) : cobj :=
+  retarget {| members := members o; owner := owner o;
+              jacl := if ty =? 1 then a else jacl o;
+              pacl := if ty =? 1 then pacl o else if ty =? 2 then a else pacl o;
+              racl := if ty =? 1 then racl o else if ty =? 2 then racl o else a;
+              targets := targets o |}.
+Definition acl_update (a : list user) (us : list user) (adding : bool) : list user :=
+  fold_left (fun acc u => if adding then add u acc else del u acc) us a.
 
 Record gst := {
   objs : oid -> cobj;
@@ -61,7 +85,7 @@ Record gst := {
   cuser : conn -> option user }.      (* the user a live connection authenticated as *)
 
 Definition ginit : gst :=
-  {| objs := fun _ => {| members := []; owner := None |}; next_oid := 0; cmap := fun _ => None;
+  {| objs := fun _ => empty_obj; next_oid := 0; cmap := fun _ => None;
      idx := fun _ => []; reg := fun _ => []; wl := fun _ => None; cuser := fun _ => None |}.
 
 Definition set_objs (g : gst) v := {| objs := v; next_oid := next_oid g; cmap := cmap g; idx := idx g; reg := reg g; wl := wl g; cuser := cuser g |}.
@@ -86,7 +110,9 @@ Inductive req :=
 | RLeave (ch : chan) (ob : option user) (id : N)
 | RBcast (ch : chan) (payload : N) (id : N)
 | RMembers (ch : chan) (id : N)
-| RChannels (id : N).
+| RChannels (id : N)
+| RSetAcl (ch : chan) (ty : N) (adding : bool) (us : list user) (id : N)
+| RGetAcl (ch : chan) (ty : N) (id : N).
 
 Inductive pc :=
 | PStart (r : req)
@@ -98,6 +124,8 @@ Inductive pc :=
 | PBcastGate (ch : chan) (payload : N) (id : N)                                (* payload validation *)
 | PBcastWait (ch : chan) (o : oid) (payload : N) (id : N)                      (* waits for o's read lock *)
 | PMembersWait (ch : chan) (o : oid) (id : N)
+| PSetAclWait (ch : chan) (o : oid) (ty : N) (adding : bool) (us : list user) (id : N)     (* waits for o's write lock *)
+| PGetAclWait (ch : chan) (o : oid) (ty : N) (id : N)                                      (* waits for o's read lock *)
 | PDone.
 
 Record task := {
@@ -109,6 +137,7 @@ Record task := {
 (* error reasons (wire names in lib/conclib.py) *)
 Definition E_FORBIDDEN := 1.
 Definition E_USER_NOT_REGISTERED := 2.
+Definition E_NOT_ALLOWED := 3.
 Definition E_USER_IN_CHANNEL := 4.
 Definition E_CHANNEL_IS_FULL := 5.
 Definition E_POLICY_VIOLATION := 6.
@@ -125,6 +154,7 @@ Definition A_JOIN := 1.
 Definition A_LEAVE := 2.
 Definition A_BCAST := 3.
 Definition A_IDENT := 4.
+Definition A_SETACL := 5.
 
 Inductive cout :=
 | OAck (c : conn) (id : N) (kind : N)
@@ -134,6 +164,7 @@ Inductive cout :=
 | OMsg (c : conn) (ch : chan) (from : user) (payload : N)
 | OMembers (c : conn) (id : N) (l : list user)
 | OChannels (c : conn) (id : N) (l : list chan)
+| OAcl (c : conn) (id : N) (l : list user)
 | OModEvent (kind : N) (ch : chan) (u : user) (own : bool)
 | OModPayload (from : user) (ch : chan) (payload : N).
 
@@ -188,7 +219,8 @@ Section Steps.
       match who with
       | inl e => refuse e
       | inr n =>
-          if mem n (members b) then refuse E_USER_IN_CHANNEL
+          if negb (allowed (jacl b) n) then refuse E_NOT_ALLOWED
+          else if mem n (members b) then refuse E_USER_IN_CHANNEL
           else if c_max_clients cf <=? len (members b) then refuse E_CHANNEL_IS_FULL
           else if c_max_subs cf <=? len (idx g n) then refuse E_POLICY_VIOLATION
           else
@@ -203,7 +235,7 @@ Section Steps.
     | Some o => if lock_free g o then join_locked g ch o false ob id else (g, PJoinWait ch o ob id, [])
     | None =>
         let o := next_oid g in
-        let g1 := set_cmap (set_next (put_obj g o {| members := []; owner := None |}) (o + 1)) (upd (cmap g) ch (Some o)) in
+        let g1 := set_cmap (set_next (put_obj g o empty_obj) (o + 1)) (upd (cmap g) ch (Some o)) in
         join_locked g1 ch o true ob id
     end.
 
@@ -263,7 +295,8 @@ Section Steps.
   Definition bcast_read (g : gst) (ch : chan) (o : oid) (payload id : N) : step_res :=
     let b := objs g o in
     if negb (mem me (members b)) then (g, PDone, err_out tc id E_FORBIDDEN)
-    else (g, PDone, map (fun c => OMsg c ch me payload) (conns_of g (members b) tc)
+    else if negb (allowed (pacl b) me) then (g, PDone, err_out tc id E_NOT_ALLOWED)
+    else (g, PDone, map (fun c => OMsg c ch me payload) (conns_of g (targets b) tc)
                     ++ match tc with Some c => [OAck c id A_BCAST] | None => [] end).
 
   Definition bcast_lookup (g : gst) (ch : chan) (payload id : N) : step_res :=
@@ -277,6 +310,20 @@ Section Steps.
     let b := objs g o in
     if negb (mem me (members b)) then (g, PDone, err_out tc id E_USER_NOT_IN_CHANNEL)
     else (g, PDone, match tc with Some c => [OMembers c id (members b)] | None => [] end).
+
+  (* --- allow-lists (the owner's business; an update needs the write lock, a report the read lock) --- *)
+  Definition set_acl_locked (g : gst) (o : oid) (ty : N) (adding : bool) (us : list user) (id : N) : step_res :=
+    let b := objs g o in
+    if negb (is_owner b me) then (g, PDone, err_out tc id E_FORBIDDEN)
+    else
+      let a := acl_update (acl_of b ty) us adding in
+      if c_max_clients cf <? len a then (g, PDone, err_out tc id E_POLICY_VIOLATION)
+      else (put_obj g o (obj_set_acl b ty a), PDone, match tc with Some c => [OAck c id A_SETACL] | None => [] end).
+
+  Definition get_acl_read (g : gst) (o : oid) (ty : N) (id : N) : step_res :=
+    let b := objs g o in
+    if negb (is_owner b me) then (g, PDone, err_out tc id E_FORBIDDEN)
+    else (g, PDone, match tc with Some c => [OAcl c id (acl_of b ty)] | None => [] end).
 
   (* one segment of a task: from where it stands to its next suspension point (or its end).
      [ok] answers the modulator call the task is parked on, [hint] picks the new owner. *)
@@ -292,6 +339,18 @@ Section Steps.
         | Some o => if lock_free g o then members_read g o id else (g, PMembersWait ch o id, [])
         end
     | PStart (RChannels id) => (g, PDone, match tc with Some c => [OChannels c id (idx g me)] | None => [] end)
+    | PStart (RSetAcl ch ty adding us id) =>
+        match cmap g ch with
+        | None => (g, PDone, err_out tc id E_CHANNEL_NOT_FOUND)
+        | Some o => if lock_free g o then set_acl_locked g o ty adding us id else (g, PSetAclWait ch o ty adding us id, [])
+        end
+    | PStart (RGetAcl ch ty id) =>
+        match cmap g ch with
+        | None => (g, PDone, err_out tc id E_CHANNEL_NOT_FOUND)
+        | Some o => if lock_free g o then get_acl_read g o ty id else (g, PGetAclWait ch o ty id, [])
+        end
+    | PSetAclWait ch o ty adding us id => if lock_free g o then set_acl_locked g o ty adding us id else (g, p, [])
+    | PGetAclWait ch o ty id => if lock_free g o then get_acl_read g o ty id else (g, p, [])
     | PJoinWait ch o ob id => if lock_free g o then join_locked g ch o false ob id else (g, p, [])
     | PJoinNotify ch o created n id => join_finish g ch o created n id ok
     | PLeaveWait ch o ob id => if lock_free g o then leave_locked g ch o ob id hint else (g, p, [])
